@@ -16,6 +16,7 @@ CONFIG = {
     "C01": dict(gen=["Units"], drivers=["Units"]),
     "C20": dict(gen=["Registry"], drivers=["Registry"]),
     "C11": dict(gen=["Models"], drivers=["ModelsF", "SpreadPoint"], extra_prop_files=["PgVerif/Tie/Models.lean"]),
+    "C12": dict(gen=["Models"], drivers=["Fit"]),
     "C14": dict(gen=["Char"], drivers=["Char"]),
     "C16": dict(gen=["Char"], drivers=["Char"]),
     "C19": dict(gen=["Char", "Models"], drivers=["Char"]),
